@@ -114,7 +114,8 @@ def gen_level(rng, engine: str, bounds, lsc: dict | None = None, stack=None, max
         lv["pop"] = max(lv["pop"], 5)
         lv["memory"] = rng.choice([1, 2, 3, 5, 8])
     if engine in ("lhs", "sobol"):
-        lv["pop"] = rng.choice([4, 8, 16]) if engine == "sobol" else rng.randint(4, max_pop)
+        # Sobol' sample sizes that are not powers of two are legal (scipy only warns about balance properties)
+        lv["pop"] = rng.choice([4, 8, 16, 6, 10, 20, 12, 5]) if engine == "sobol" else rng.randint(4, max_pop)
     if engine in CMA_ENGINES:
         lv["gens"] = rng.randint(1, max_gens + 2)
         if engine == "cma":
